@@ -65,6 +65,13 @@ def _case(draw, tier):
         mesh = draw(meshgen.latlon_mesh_st())
     elif kind == "mpas":
         mesh = draw(meshgen.voronoi_mesh(6, 30 if big else 16))
+        if len(mesh["faces"]) >= 6 and draw(st.integers(0, 2)) == 0:
+            # limited-area MPAS mesh: some cells removed (zeros for the missing neighbours in the source's tables)
+            drop = {k % len(mesh["faces"]) for k in draw(st.lists(st.integers(0, 10_000), min_size=1, max_size=4))}
+            keep = [f for i, f in enumerate(mesh["faces"]) if i not in drop]
+            used = sorted({i for f in keep for i in f})
+            re_ = {o: k for k, o in enumerate(used)}
+            mesh = {"nodes": [mesh["nodes"][o] for o in used], "faces": [[re_[i] for i in f] for f in keep], "family": "voronoi-regional"}
         source = "mpas"
         # verticesOnEdge defines the source's edge numbering: it is only withheld together with
         # every other edge-indexed table (a source that numbers edges without defining them is
